@@ -47,6 +47,7 @@ type c18Local struct {
 	addr c18Addr
 	port string
 	form string // "id" or "enode"
+	adv  string // enode form: the host the peer advertises for itself ("" = the address it is connected from)
 }
 
 func (l c18Local) info(k int) ethnode.PeerInfo {
@@ -54,7 +55,12 @@ func (l c18Local) info(k int) ethnode.PeerInfo {
 	p.Network.RemoteAddress = l.addr.host + ":" + l.port
 	if l.form == "enode" {
 		p.ID = fmt.Sprintf("%064x", 0xabc0+k)
-		p.Enode = "enode://" + l.id + "@" + l.addr.host + ":" + l.port
+		adv := l.addr.host
+		if l.adv != "" {
+			// what the peer advertises (its listening address, a NAT-internal one, [::]) is not where it is connected from
+			adv = l.adv
+		}
+		p.Enode = "enode://" + l.id + "@" + adv + ":" + l.port
 	}
 	return p
 }
@@ -130,7 +136,11 @@ func c18Case(rt *rapid.T, rec *vt.Rec, viaRPCNode bool) {
 				if viaRPCNode && kind == ethnode.Parity {
 					form = "id" // parity_netPeers carries the public key as the id, there is no separate enode field
 				}
-				locals = append(locals, c18Local{id: hexID(i), addr: ad, port: port, form: form})
+				adv := ""
+				if form == "enode" && rapid.IntRange(0, 2).Draw(rt, "advertisesOtherHost") == 0 {
+					adv = rapid.SampledFrom([]string{"[::]", "0.0.0.0", "127.0.0.1", "10.9.8.7", "198.51.100.77", "[2001:db8::77]", "node.internal"}).Draw(rt, "advertised")
+				}
+				locals = append(locals, c18Local{id: hexID(i), addr: ad, port: port, form: form, adv: adv})
 			}
 		}
 		setLocal(locals)
@@ -177,6 +187,21 @@ func c18Case(rt *rapid.T, rec *vt.Rec, viaRPCNode bool) {
 			activeByID[x.id] = x
 		}
 		updateErr := rapid.IntRange(0, 9).Draw(rt, "updateFails") == 0
+		// the ways a keep-alive fails: transport errors and RPC error replies of every code the pool produces
+		var updateFailure error
+		if updateErr {
+			updateFailure = rapid.SampledFrom([]error{
+				errors.New("scripted update failure"),
+				errors.New("connection reset"),
+				context.DeadlineExceeded,
+				&jsonrpc2.ErrResponse{Code: jsonrpc2.ErrCodeInternal, Message: "badger: transaction conflict"},
+				&jsonrpc2.ErrResponse{Code: jsonrpc2.ErrCodeInternal, Message: "low balance error: Current balance (-5) is less than the required minimum (0)"},
+				&jsonrpc2.ErrResponse{Code: jsonrpc2.ErrCodeInternal, Message: "method \"vipnode_update\" failed to verify signature: invalid nonce"},
+				&jsonrpc2.ErrResponse{Code: jsonrpc2.ErrCodeInvalidParams, Message: "invalid params"},
+				&jsonrpc2.ErrResponse{Code: jsonrpc2.ErrCodeMethodNotFound, Message: "method not found"},
+				&jsonrpc2.ErrResponse{Code: -32000, Message: "server error"},
+			}).Draw(rt, "updateFailure")
+		}
 		peerErr := rapid.SampledFrom([]string{"", "", "", "", "nohosts", "rpc-other", "transport"}).Draw(rt, "peerErr")
 		nOffer := rapid.IntRange(0, 4).Draw(rt, "nOffer")
 		var offered []string
@@ -190,7 +215,7 @@ func c18Case(rt *rapid.T, rec *vt.Rec, viaRPCNode bool) {
 		sp.mu.Lock()
 		sp.onUpdate = func(n int, req pool.UpdateRequest) (*pool.UpdateResponse, error) {
 			if updateErr {
-				return nil, errors.New("scripted update failure")
+				return nil, updateFailure
 			}
 			return &pool.UpdateResponse{ActivePeers: append([]string{}, activeURIs...), InvalidPeers: append([]string{}, invalid...)}, nil
 		}
